@@ -27,7 +27,7 @@ def run(rep, prog, tier):
     interps = SR.analyse(prog)
     n = SR.emit(rep, 'R10.space', interps, ['ssm', 'model', 'wrapper'])
     rep.count('space_obligations', n)
-    if n < 90: rep.error(f'only {n} index-space obligations in the state-space path')
+    if n < 25: rep.error(f'only {n} index-space obligations in the state-space path')
     layout(rep, interps)
     formulas(rep, prog)
     rows(rep, prog)
